@@ -24,7 +24,7 @@ PATHS = ("law", "block", "block_valid", "stream", "read_dedisp", "dmt", "dmt_val
 
 
 def REQUIRED(tier):
-    return [f"path:{p}" for p in PATHS] + ["regime:negative_delays", "regime:foff>0", "regime:dm<0", "law_checks", "elements_compared", "regime:multi_file_input", "path:block_second_reference", "tie_sweep_dms", "exact_half_sample_ties", "law_after_stream_checks", "file_depth:4", "file_depth:1", "file_depth:8", "regime:input_header_carries_a_dm", "path:block_same_dm_twice", "regime:streamed_interior_subrange", "dmt:channel_with_samples_summing_to_zero"]
+    return [f"path:{p}" for p in PATHS] + ["regime:negative_delays", "regime:foff>0", "regime:dm<0", "law_checks", "elements_compared", "regime:multi_file_input", "path:block_second_reference", "tie_sweep_dms", "exact_half_sample_ties", "law_after_stream_checks", "file_depth:4", "file_depth:1", "file_depth:8", "regime:input_header_carries_a_dm", "path:block_same_dm_twice", "regime:streamed_interior_subrange", "dmt:channel_with_samples_summing_to_zero", "law:same_band_other_sampling_time"]
 
 
 def cases(tier, seed):
@@ -171,6 +171,18 @@ def _law(case, j, ctx):
         return
     if not np.array_equal(d, d2):
         ctx.violation("law-header-vs-function", "Header.get_dmdelays differs from compute_dmdelays on the same inputs", one)
+    if j % 3 == 0 and dm:
+        # the same band and DM described at another sampling time (a file and its time-decimated copy, handled by one process): the table in
+        # samples follows the header it is asked of
+        ts2 = tsamp * float(rng.choice([2.0, 4.0, 0.5]))
+        hdr2 = _hdr(nch, fch1, foff, ts2, 1000)
+        dd2 = np.asarray(hdr2.get_dmdelays(dm, ref_freq=ref)).astype(np.int64)
+        v2 = refmodels.dm_delay_exact(f, dm, ts2, fref)
+        ctx.count("law:same_band_other_sampling_time")
+        if np.any(np.abs(dd2 - v2) > 0.5 + tol * (tsamp / ts2) + 1e-9):
+            c = int(np.argmax(np.abs(dd2 - v2)))
+            ctx.violation("law-value:same-band-other-sampling-time", f"delay[{c}]={dd2[c]} for tsamp={ts2} right after the same band/DM at tsamp={tsamp}; law gives {v2[c]:.4f}", one)
+            return
     if not np.array_equal(dneg, -d):
         ctx.violation("law-antisymmetry", f"delays(-DM) != -delays(DM): {dneg[:4]} vs {(-d)[:4]}", one)
     if isinstance(ref, str) and ref in ("max", "min", "ch1"):
